@@ -19,6 +19,7 @@ def run(res):
     if res.broken:
         n = max(n, 1500)      # failing-input search on the implementation
     pc.pool_check(res, 'C06', n, focus=FOCUS)
+    pc.hook_cases(res, 'C06')
     pc.real_scenarios(res, 'C06', [dict(kind='soft_timeout'), dict(kind='soft_timeout', initializer='dfl'), dict(kind='soft_timeout', initializer='ign')] if res.tier == 'quick' else [dict(kind='soft_timeout'), dict(kind='soft_timeout', initializer='dfl'), dict(kind='soft_timeout', initializer='ign')] * 3)
     res.assumptions += pc_assumptions()
 
